@@ -717,6 +717,7 @@ def one_case(run, rng):
 
 def run(run, ctx):
     n = N[ctx.tier]
+    G.warm_up()
     for i in ctx.cases(n):
         rng = ctx.rng(PID, i)
         try:
@@ -759,6 +760,7 @@ def replay(path):
     with open(path) as f:
         v = json.load(f)
     w = v["witness"]
+    G.warm_up()
     spec, program = w["spec"], w["program"]
     import random
     r = new_run()
